@@ -252,6 +252,32 @@ def run(chk, tier):
             else:
                 chk.fail('R5', tag + ':scale', fn_loc(f), '%s::split_payload_extension must call split(get_length() × %d (without narrowing), buf[8..]); found %s' % (
                     tag, k, detail or 'no single call to split'), key='R5|%s|scale' % tag)
+    # the structure is parsed exactly when its version field equals the supported version (any other version yields no extensions, not a parse)
+    ftv = [f_ for p_, f_ in prog.fns.items() if re.search(r'TryFrom<.*ExtensionsPacket<.*>> for trippy_core::probe::Extensions>::try_from$', p_)]
+    if ftv:
+        from ..tables import holds
+        ev_ = Engine(prog, inline_depth=0)
+        stv = St()
+        okv, seenv = True, set()
+        for o in ev_.run(ftv[0], [('sym', 'value')], stv):
+            if o.kind != 'return':
+                continue
+            va = [vshow(a) for a, v, _ in o.st.decisions if 'get_version' in vshow(a)]
+            m_ = re.search(r'(call:ExtensionHeaderPacket::get_version\(.*?\)\)\)\)), (\d+)\)', va[0]) if va else None
+            eq = holds(o.st.decisions, 'Eq(%s, 2)' % m_.group(1)) if m_ else None
+            parses = bool(user_calls(o, r'ExtensionsPacket::(<.*>::)?objects$|ExtensionsPacket.*::objects$'))
+            if va and eq is None:
+                okv = False            # decided on the version in some other way than equality with 2
+            if parses and eq != 1:
+                okv = False
+            if eq == 0 and vshow(o.value) != 'Result::Ok(call:Extensions::default())':
+                okv = False
+            if eq is not None:
+                seenv.add(eq)
+        if okv and seenv == {0, 1}:
+            chk.ok('R5', 'version-test', 'objects are parsed iff header.version == 2; any other version yields no extensions')
+        else:
+            chk.fail('R5', 'version-test', fn_loc(ftv[0]), 'Extensions::try_from does not parse the objects exactly when the version field equals 2 (RFC 4884 defines version 2 only)', key='R5|version-test')
     ver = prog.consts.get('trippy_core::net::extension::ICMP_EXTENSION_VERSION')
     if ver and ver['bits'] == '2':
         chk.ok('R5', 'version', 'ICMP_EXTENSION_VERSION = 2')
